@@ -82,7 +82,8 @@ def worker(k):
 
 
 open(out_path + ".partial", "w").close()
-ts = [threading.Thread(target=worker, args=(k,)) for k in range(workers)]
+base_k = int(os.environ.get("PSWEEP_BASE", "0"))   # a second sweep at the same time uses other worker numbers
+ts = [threading.Thread(target=worker, args=(base_k + k,)) for k in range(workers)]
 for t in ts:
     t.start()
 for t in ts:
